@@ -482,7 +482,7 @@ class _Sink(object):
 
 
 _ADDR = re.compile(r' at 0x[0-9a-fA-F]+')
-_REFLECTIVE = ('<locals>', ' object at 0x', '<function ', '<bound method', '<lambda>', '<code object', '<frame ', '<cell ', 'Traceback (most recent')
+_REFLECTIVE = ('<locals>', ' object at 0x', ' instance at 0x', '<class __main__.', '<unbound method',  '<function ', '<bound method', '<lambda>', '<code object', '<frame ', '<cell ', 'Traceback (most recent')
 
 
 def _summarise(v, depth=0):
